@@ -193,3 +193,41 @@ func c07PairSearch(p *load.Prog, r *oblig.Run) {
 		}
 	}
 }
+
+// c07CopyWalksAll (R07.h): the callback DeepCopy hands to Filter keeps every
+// node (it returns the copy, never nil) and always asks for the children to be
+// traversed - otherwise a subtree is missing from every copy.
+func c07CopyWalksAll(p *load.Prog, r *oblig.Run) {
+	r.Rule("R07.h", "the callback of DeepCopy asks for the children of every node to be traversed (second result true on every return)", 1)
+	dc := p.Func(load.PkgRoot, "DeepCopy")
+	if dc == nil {
+		r.Add("R07.h", "anchor", "-", "anchor").Unknown("DeepCopy not found")
+		return
+	}
+	n := 0
+	for _, an := range dc.AnonFuncs {
+		if an.Signature.Results().Len() != 2 {
+			continue
+		}
+		for _, b := range an.Blocks {
+			ret, ok := b.Instrs[len(b.Instrs)-1].(*ssa.Return)
+			if !ok || len(ret.Results) != 2 {
+				continue
+			}
+			n++
+			o := r.Add("R07.h", fmt.Sprintf("return %d of the DeepCopy callback", n), p.Pos(ret.Pos()), "traverseChildren result")
+			k, isK := ret.Results[1].(*ssa.Const)
+			switch {
+			case !isK:
+				o.Fail("the callback of DeepCopy decides at run time whether the children of a node are copied: for the nodes it answers false for, everything below them is missing from every copy (and from every merge)")
+			case k.Value == nil || k.Value.ExactString() != "true":
+				o.Fail("the callback of DeepCopy returns traverseChildren=false at " + p.Pos(ret.Pos()) + ": everything below such a node is missing from every copy (and from every merge, which is built from copies)")
+			default:
+				o.OK("true")
+			}
+		}
+	}
+	if n == 0 {
+		r.Add("R07.h", "callback", p.Pos(dc.Pos()), "callback of DeepCopy").Unknown("DeepCopy has no callback with two results")
+	}
+}
